@@ -6325,7 +6325,8 @@ static size_t ZSTD_checkBufferStability(ZSTD_CCtx const* cctx,
 {
     if (cctx->appliedParams.inBufferMode == ZSTD_bm_stable) {
         ZSTD_inBuffer const expect = cctx->expectedInBuffer;
-        if (expect.src != input->src || expect.pos != input->pos)
+        int const noBufferYet = (expect.src == NULL) && (expect.size == 0);   /* the frame was started by ZSTD_flushStream() / ZSTD_endStream() before any input : the caller has not shown its buffer yet */
+        if (!noBufferYet && (expect.src != input->src || expect.pos != input->pos))
             RETURN_ERROR(stabilityCondition_notRespected, "ZSTD_c_stableInBuffer enabled but input differs!");
     }
     (void)endOp;
